@@ -222,12 +222,15 @@ def bounded_runtime_kinds(tier, seed):
                    Animal={"oneOf": [R("Cat"), R("Dog"), R("Bird")], "discriminator": {"propertyName": "petType", "mapping": {
                        "cat": "#/components/schemas/Cat", "dog": "#/components/schemas/Dog", "bird": "#/components/schemas/Bird"}}},
                    Color={"type": "string", "enum": ["red", "dark-green", ""]},
+                   Priority={"type": "integer", "enum": [0, 1, 2]},
                    Zoo=C.obj({"star": R("Animal"), "all": {"type": "array", "items": R("Animal")}, "byName": {"type": "object", "additionalProperties": R("Animal")}, "tint": R("Color")}, ["star"]))
     ops = [C.op("/animal", "get", "getAnimal", ["k"], responses={"200": C.resp_json(R("Animal")), "203": C.resp_json(R("Animal"))}),
            C.op("/animals", "get", "listAnimals", ["k"], responses={"200": C.resp_json({"type": "array", "items": R("Animal")})}),
            C.op("/zoo", "get", "getZoo", ["k"], responses={"200": C.resp_json(R("Zoo"))}),
            C.op("/pets", "get", "mapPets", ["k"], responses={"200": C.resp_json({"type": "object", "additionalProperties": R("Pet")})}),
-           C.op("/color", "get", "getColor", ["k"], responses={"200": C.resp_json(R("Color"))}),
+           C.op("/color", "get", "getColor", ["k"], responses={"200": C.resp_json(R("Color")), "201": C.resp_json(R("Color"))}),
+           C.op("/priority", "get", "getPriority", ["k"], responses={"200": C.resp_json(R("Priority"))}),
+           C.op("/colors", "get", "listColors", ["k"], responses={"200": C.resp_json({"type": "array", "items": R("Color")})}),
            C.op("/count", "get", "getCount", ["k"], responses={"200": C.resp_json(P["int"])}),
            C.op("/flag", "get", "getFlag", ["k"], responses={"200": C.resp_json(P["bool"])}),
            C.op("/text", "get", "getText", ["k"], responses={"200": C.resp_json(P["str"])})]
@@ -238,7 +241,8 @@ def bounded_runtime_kinds(tier, seed):
     pet = {"id": 7, "name": "Tom", "tag-name": "t", "born": "2020-01-02"}
     cases = [("get_animal", 200, cat, "Cat"), ("get_animal", 200, dog, "Dog"), ("get_animal", 200, bird, "Bird"), ("get_animal", 203, dog, "Dog"),
              ("list_animals", 200, [bird, dog, cat], None), ("get_zoo", 200, {"star": dog, "all": [cat, bird], "byName": {"x": bird, "y": dog}, "tint": ""}, "Zoo"),
-             ("map_pets", 200, {"a": pet}, None), ("get_color", 200, "dark-green", None), ("get_color", 200, "", None), ("get_count", 200, 0, None),
+             ("map_pets", 200, {"a": pet}, None), ("get_color", 200, "dark-green", "Color"), ("get_color", 200, "", "Color"), ("get_color", 201, "red", "Color"),
+             ("get_priority", 200, 0, "Priority"), ("get_priority", 200, 2, "Priority"), ("list_colors", 200, ["red", ""], None), ("get_count", 200, 0, None),
              ("get_flag", 200, False, None), ("get_text", 200, "", None)]
     failures, n = [], 0
     root = G.scratch("c05k")
